@@ -285,9 +285,9 @@ theorem C05_scoped_isolation (name : Str) (args : List Str) (out : Option Str) (
     (callFrame s0 fi out callLine) frames vars0 scopes hfn hscope hm (by simpa [callFrame] using hsc)
   clear_value c r
   subst hc hr
-  simp only [hsc, if_true]
-  refine ⟨rfl, rfl, ?_, rfl, rfl, rfl, ?_, rfl⟩
+  refine ⟨rfl, by simp [hsc], ?_, rfl, by simp [hsc], rfl, ?_, rfl⟩
   · intro k hk
+    simp only [hsc, if_true]
     rw [C05_params_other [] args k hk]
     rfl
   · intro k
@@ -544,7 +544,8 @@ example : ∃ (s1 : Sdk) (frames : List FnCall) (scopes : List Vars) (vars0 : Va
 
 /-- `C05_return_leaves_for_state`: see the state built in `C05_return_cleans_loops_refuted`; the
     witness run reaches such a state at its first `return` -/
-example : ∃ (s : Sdk) ci rest fc fors line, s.fnStack = ci :: rest ∧ RetMatches ci line s ∧
+example : ∃ (s : Sdk) (ci : FnCall) (rest : List FnCall) (fc : ForCall) (fors : List ForCall)
+    (line : Nat), s.fnStack = ci :: rest ∧ RetMatches ci line s ∧
     s.forStack = fc :: fors ∧ (ci.startLine < fc.start ∧ fc.stop < ci.endLine ∧ fc.ctx = ci.ctx) :=
   ⟨{ fnStack := [exFrame false], forStack := [{ iteration := 1, start := 2, stop := 4, ctx := [] }] },
     exFrame false, [], _, [], 3, rfl, by decide, rfl, by decide⟩
